@@ -60,6 +60,18 @@ HINTS = {
          'may be 0 or empty; min / max / mean / diff / percentile of fewer than two values; range(len(x) - 1) loops; slices x[1:] / x[:-1] that '
          'become empty; broadcasting that silently works differently when a dimension is 1. Each of the three seeds must break for a '
          'DIFFERENT degenerate member, and ordinary inputs (several events, several cells, several bins) must keep working exactly.',
+    '9': 'Aim at CONFUSIONS BETWEEN THINGS OF THE SAME TYPE, which no interpreter and no type checker can see: two arguments of the same '
+         'type exchanged at a call site or in a signature (longitude / latitude, start / end, forecast / benchmark, observed / simulated, '
+         'row / column, minimum / maximum, numerator / denominator); the components of a tuple or the values of a dict returned, unpacked '
+         'or indexed in another order than the other side expects; an axis or a column number exchanged for its neighbour; one of two '
+         'similar attributes, methods or helpers used for the other (the scaled versus the stored rates, the spatial versus the '
+         'space-magnitude counts, the filtered versus the unfiltered catalog, the epoch versus the datetime, midpoints versus origins, '
+         'edges versus centres, the inclusive versus the exclusive tail); a unit or scale silently changed (milliseconds / seconds, days / '
+         'years, degrees / radians, natural / decimal logarithm, counts / rates, probability / percent); a sign or direction reversed '
+         '(ascending / descending, a - b for b - a, <= for >=) in a place where the usual symmetric test data cannot tell. Prefer sites '
+         'where both variants give plausible numbers and the existing tests use symmetric or square inputs (equal numbers of rows and '
+         'columns, lon == lat, identical forecasts, a single magnitude bin) that hide the exchange. The three seeds must be three '
+         'different kinds of confusion in three different functions.',
 }
 prop = None
 for line in open(os.path.join(HERE, 'properties.jsonl')):
